@@ -7,6 +7,7 @@ import Poulpy.Lemmas.NttAvxBridge
 import Poulpy.Lemmas.Fft64Instance
 import Poulpy.Lemmas.Fft64Vmp
 import Poulpy.Lemmas.F64Mono
+import Poulpy.Lemmas.Fft64AvxAgree
 
 /-!
 # C07 — DFT-domain products equal exact negacyclic (bivariate) convolution
@@ -1304,5 +1305,142 @@ example : ‖cval (bflyFwd ⟨0x3FF0000000000000, 0, false⟩ (0x400800000000000
   · exact hn _ _ (by rw [v1]; norm_num) (by rw [vm2]; norm_num)
   · calc (8:ℝ) = 2 ^ (3:Int) := by norm_num
       _ ≤ (2:ℝ) ^ (999:Int) := two_pow_le _ _ (by norm_num)
+
+end C07
+
+
+/-!
+# FFT64Avx — the AVX2/FMA back end (appended slice, second round)
+
+`Model/Fft64Avx.lean` models `poulpy-cpu-avx/src/fft64` lane by lane: `F64.fma` (ONE rounding of `x·y + z`:
+`_mm256_fmadd_pd / fmsub_pd`, `vfmadd231pd / vfmsub231pd` of the `.s` kernels) replaces the separately rounded products of
+the reference in the butterflies, in `reim_mul/addmul` and in the reim4 matrix-vector kernels; the conversions are the
+magic-constant / exponent-shift tricks.  Tied bit for bit through `pvh fft64 be=avx` (the `f64` bits differ from FFT64Ref).
+The error analysis lifts with the *same* constants (a fused product saves a rounding), so:
+
+* `fft64avx_pipeline_exact`, `fft64avx_vmp_exact`: the FFT64Avx pipelines return exactly `Hal.negMul` / the sum of products
+  inside `SvpDomainX` (= `SvpDomain` + one `u`) resp. `VmpDomainAvx`;
+* **`fft64_ref_avx_agree_inside_domain`** (the C10 statement for the FFT64 family): inside the common domain both back ends
+  return the same integers although their `f64` intermediate values differ; `fft64_ref_avx_agree_numeric` gives the domain
+  in numbers (the table of `fft64_domain_numeric`); `fft64_vmp_ref_avx_agree` for the vector-matrix product.
+-/
+
+namespace C07
+open F64 Fft64 Fft64Avx Complex Hal
+
+/-- `fma` is the correctly rounded `a·b + c`: ONE rounding -/
+theorem f64_fma_correctly_rounded (a b c : Nat) (ha : Fin64 a) (hb : Fin64 b) (hc : Fin64 c)
+    (hx : |val a * val b + val c| < (2:ℝ) ^ (1023:Int)) :
+    Fin64 (F64.fma a b c) ∧ |val (F64.fma a b c) - (val a * val b + val c)| ≤ max (u * |val a * val b + val c|) η :=
+  fma_spec a b c ha hb hc hx
+
+/-- one AVX2/FMA forward butterfly: the statement and constant of the reference butterfly -/
+theorem fft64avx_butterfly_error (t : Tw) (a b : C64) (ω : ℂ) (τ M : ℝ) (ht : TwFin t) (ha : CFin a) (hb : CFin b)
+    (hω : ‖ω‖ = 1) (hτ : ‖twC t - ω‖ ≤ τ) (hτ1 : τ ≤ 1) (hMa : ‖cval a‖ ≤ M) (hMb : ‖cval b‖ ≤ M)
+    (hM1 : 1 ≤ M) (hM2 : M ≤ (2:ℝ) ^ (999:Int)) :
+    CFin (bflyFwdAvx t a b).1 ∧ CFin (bflyFwdAvx t a b).2 ∧
+    ‖cval (bflyFwdAvx t a b).1 - (cval a + ω * cval b)‖ ≤ γf τ * M ∧
+    ‖cval (bflyFwdAvx t a b).2 - (cval a - ω * cval b)‖ ≤ γf τ * M :=
+  bflyFwdAvx_err t a b ω τ M ht ha hb hω hτ hτ1 hMa hMb hM1 hM2
+
+theorem fft64avx_inv_butterfly_error (t : Tw) (a b : C64) (ω : ℂ) (τ M : ℝ) (ht : TwFin t) (ha : CFin a) (hb : CFin b)
+    (hω : ‖ω‖ = 1) (hτ : ‖twCi t - ω‖ ≤ τ) (hτ1 : τ ≤ 1) (hMa : ‖cval a‖ ≤ M) (hMb : ‖cval b‖ ≤ M)
+    (hM1 : 1 ≤ M) (hM2 : M ≤ (2:ℝ) ^ (997:Int)) :
+    CFin (bflyInvAvx t a b).1 ∧ CFin (bflyInvAvx t a b).2 ∧
+    ‖cval (bflyInvAvx t a b).1 - (cval a + cval b)‖ ≤ γi τ * M ∧
+    ‖cval (bflyInvAvx t a b).2 - (cval a - cval b) * ω‖ ≤ γi τ * M :=
+  bflyInvAvx_err t a b ω τ M ht ha hb hω hτ hτ1 hMa hMb hM1 hM2
+
+/-- the level induction for ANY butterfly function meeting the per-butterfly statement (`Fft64Avx.FwdSpec`) -/
+theorem fft64_network_error_generic (bf : Tw → C64 → C64 → C64 × C64) (hbf : FwdSpec bf) (τ : ℝ) (hτ0 : 0 ≤ τ) (hτ1 : τ ≤ 1)
+    (tw : Nat → Nat → Tw) (k lvl blk : Nat) (j A E : ℝ) (zc : List C64) (z : List ℂ) (hA : 1 ≤ A) (hE : 0 ≤ E)
+    (hlen : zc.length = 2 ^ k) (hc : Close E A zc z) (hacc : AccF τ tw k lvl blk j)
+    (hbig : 2 ^ k * (1 + γf τ / 2) ^ k * (A + E) ≤ (2:ℝ) ^ (999:Int)) :
+    Close (errB (γf τ) k A E) (2 ^ k * A) (fwdG bf tw k lvl blk zc) (fwdE k j z) :=
+  fwdG_err bf hbf τ hτ0 hτ1 tw k lvl blk j A E zc z hA hE hlen hc hacc hbig
+
+/-- `reim_from_znx_i64_bnd50_fma` (magic constant `2^52 + 2^51`): bit for bit the reference conversion inside its asserted range -/
+theorem fft64avx_from_znx_eq (a : List Int) (ha : ∀ x ∈ a, x.natAbs ≤ 2 ^ 50 - 1) : fromZnxAvx a = .ok (fromZnx a) :=
+  fromZnxAvx_eq a ha
+
+/-- outside the range the kernel's `assert!` fires (an outcome of the model) -/
+theorem fft64avx_from_znx_panics : fromZnxAvx [0, 2 ^ 50, 0, 0] = .panic "other" := by rfl
+
+/-- `reim_to_znx_i64_bnd63_avx2_fma`, one lane: the integer within `δ` of `a/2^K` is returned when `δ + u(|c|+1) < 1/2` -/
+theorem fft64avx_to_znx_lane (K : Nat) (hK : K ≤ 900) (a : Nat) (ha : Fin64 a) (c : Int) (hc : |c| ≤ 2 ^ 62) (δ : ℝ)
+    (hδ : |val a / 2 ^ K - (c:ℝ)| ≤ δ) (hmain : δ + u * (|(c:ℝ)| + 1) < 1 / 2) : toLaneAvx K a = c :=
+  toLaneAvx_spec K hK a ha c hc δ hδ hmain
+
+/-- **`fft64avx_pipeline_exact`**: `svp_prepare`; `svp_apply_dft`; `vec_znx_idft_apply` on `Module<FFT64Avx>` (model
+`Fft64Avx.svpPipelineAvx`, tied bit for bit) returns exactly the negacyclic product inside `SvpDomainX` -/
+theorem fft64avx_pipeline_exact (K : Nat) (omg iomg : Array Nat) (τ Ma Mb : ℝ) (p x : List Int)
+    (hacc : TableAccurate τ K omg iomg)
+    (hp : p.length = 2 ^ (K + 1)) (hx : x.length = 2 ^ (K + 1))
+    (hpM : ∀ c ∈ p, c.natAbs ≤ 2 ^ 50 - 1 ∧ |(c:ℝ)| ≤ Ma) (hxM : ∀ c ∈ x, c.natAbs ≤ 2 ^ 50 - 1 ∧ |(c:ℝ)| ≤ Mb)
+    (hdomX : SvpDomainX K τ Ma Mb) : svpPipelineAvx K omg iomg p x = .ok (Hal.negMul p x) :=
+  svpAvx_pipeline_exact K omg iomg τ Ma Mb p x hacc hp hx hpM hxM hdomX
+
+/-- **`fft64_ref_avx_agree_inside_domain`** — the C10 statement for the FFT64 family: inside the common domain FFT64Avx
+and FFT64Ref return the same integers, although every intermediate `f64` differs in its last bits -/
+theorem fft64_ref_avx_agree_inside_domain (K : Nat) (omg iomg : Array Nat) (τ Ma Mb : ℝ) (p x : List Int)
+    (hacc : TableAccurate τ K omg iomg)
+    (hp : p.length = 2 ^ (K + 1)) (hx : x.length = 2 ^ (K + 1))
+    (hpM : ∀ c ∈ p, c.natAbs ≤ 2 ^ 50 - 1 ∧ |(c:ℝ)| ≤ Ma) (hxM : ∀ c ∈ x, c.natAbs ≤ 2 ^ 50 - 1 ∧ |(c:ℝ)| ≤ Mb)
+    (hdomX : SvpDomainX K τ Ma Mb) :
+    svpPipelineAvx K omg iomg p x = .ok (Fft64.svpPipeline K omg iomg p x) :=
+  svp_ref_avx_agree K omg iomg τ Ma Mb p x hacc hp hx hpM hxM hdomX
+
+/-- the common domain in numbers: the table of `fft64_domain_numeric` -/
+theorem fft64avx_domain_numeric (K : Nat) (hK : K ≤ 15) (Ma Mb : ℝ) (hMa : 1 ≤ Ma) (hMb : 1 ≤ Mb)
+    (h : Ma * Mb ≤ (2:ℝ) ^ (domBits K)) : SvpDomainX K τ51 Ma Mb := svpDomainX_numeric K hK Ma Mb hMa hMb h
+
+/-- integer hypotheses only: exactness on FFT64Avx and agreement with FFT64Ref for `n ≤ 2^16`, `A·B ≤ 2^(domBits K)` -/
+theorem fft64_ref_avx_agree_numeric (K : Nat) (hK : K ≤ 15) (omg iomg : Array Nat) (hacc : TableAccurate τ51 K omg iomg)
+    (p x : List Int) (hp : p.length = 2 ^ (K + 1)) (hx : x.length = 2 ^ (K + 1)) (A B : Nat) (hA : 1 ≤ A) (hB : 1 ≤ B)
+    (hpA : ∀ c ∈ p, c.natAbs ≤ A) (hxB : ∀ c ∈ x, c.natAbs ≤ B) (hAB : A * B ≤ 2 ^ domBits K) :
+    svpPipelineAvx K omg iomg p x = .ok (Hal.negMul p x) ∧
+    svpPipelineAvx K omg iomg p x = .ok (Fft64.svpPipeline K omg iomg p x) :=
+  svpAvx_exact_numeric K hK omg iomg hacc p x hp hx A B hA hB hpA hxB hAB
+
+/-- **`fft64avx_vmp_exact`**: `vmp_prepare`; `vmp_apply_dft` (one output column through `reim4_vec_mat1col_product_avx`:
+four fused real accumulators per slot, `re1 − re2`, `im1 + im2` at the end); `idft` = the exact sum of products, inside
+`VmpDomainAvx` -/
+theorem fft64avx_vmp_exact (K : Nat) (hK2 : 2 ≤ K) (omg iomg : Array Nat) (τ Ma Mb : ℝ) (rows : List (Poly × Poly))
+    (hacc : TableAccurate τ K omg iomg)
+    (hlen : ∀ r ∈ rows, r.1.length = 2 ^ (K + 1) ∧ r.2.length = 2 ^ (K + 1))
+    (hM : ∀ r ∈ rows, (∀ c ∈ r.1, c.natAbs ≤ 2 ^ 50 - 1 ∧ |(c:ℝ)| ≤ Ma) ∧ (∀ c ∈ r.2, c.natAbs ≤ 2 ^ 50 - 1 ∧ |(c:ℝ)| ≤ Mb))
+    (hdom : VmpDomainAvx K rows.length τ Ma Mb) :
+    vmpPipelineAvx K omg iomg 1 rows = .ok (Hal.sumPolys (2 ^ (K + 1)) (rows.map (fun r => Hal.negMul r.1 r.2))) :=
+  vmpAvx_pipeline_exact K hK2 omg iomg τ Ma Mb rows hacc hlen hM hdom
+
+theorem fft64_vmp_ref_avx_agree (K : Nat) (hK2 : 2 ≤ K) (omg iomg : Array Nat) (τ Ma Mb : ℝ) (rows : List (Poly × Poly))
+    (hacc : TableAccurate τ K omg iomg)
+    (hlen : ∀ r ∈ rows, r.1.length = 2 ^ (K + 1) ∧ r.2.length = 2 ^ (K + 1))
+    (hM : ∀ r ∈ rows, (∀ c ∈ r.1, c.natAbs ≤ 2 ^ 50 - 1 ∧ |(c:ℝ)| ≤ Ma) ∧ (∀ c ∈ r.2, c.natAbs ≤ 2 ^ 50 - 1 ∧ |(c:ℝ)| ≤ Mb))
+    (hdomA : VmpDomainAvx K rows.length τ Ma Mb) (hdomR : VmpDomain K rows.length τ Ma Mb) :
+    vmpPipelineAvx K omg iomg 1 rows = .ok (Fft64.vmpPipeline K omg iomg rows) :=
+  vmp_ref_avx_agree K hK2 omg iomg τ Ma Mb rows hacc hlen hM hdomA hdomR
+
+theorem fft64avx_vmp_domain_example : VmpDomainAvx 2 3 τ51 4096 4096 := vmpDomainAvx_example
+
+/- FULL STATEMENT (not proved): `fft64avx_vmp_exact` for the 2-column kernels (`reim4_vec_mat2cols_product_avx`,
+   `…_2ndcol_product_avx`: `re = fmsub(ur, ar, fmsub(ui, ai, re))`), which the same entry point uses when the matrix has more
+   than one output limb; their accumulation order is modelled (`mat2colsStep`) and tied bit for bit (`vmp2`), the error
+   lemma (two fused operations per row on one accumulator) is missing. -/
+
+/-! non-vacuity: FFT64Avx and FFT64Ref on the crate's `m = 2` tables (where `m < 16` runs the reference butterflies and
+only the conversions differ), and the fused operation itself -/
+example : svpPipelineAvx 1 omg2 iomg2 [1000000, -2000000, 3000000, 4194303] [4194303, -1, 7, -4000000] =
+    .ok (Fft64.svpPipeline 1 omg2 iomg2 [1000000, -2000000, 3000000, 4194303] [4194303, -1, 7, -4000000]) :=
+  (fft64_ref_avx_agree_numeric 1 (by norm_num) omg2 iomg2 fft64_table_accurate_m2 _ _ rfl rfl (2 ^ 22) (2 ^ 22) (by norm_num) (by norm_num)
+    (by decide) (by decide) (by decide)).2
+/-- `fma(1+2^-52, 1+2^-51, -(1+3·2^-52)) = 2^-103`: the term a separately rounded product loses -/
+example : F64.fma 0x3FF0000000000001 0x3FF0000000000002 0xBFF0000000000003 = 0x3980000000000000 ∧
+    F64.add (F64.mul 0x3FF0000000000001 0x3FF0000000000002) 0xBFF0000000000003 = 0 := by decide +kernel
+/-- the two back ends really differ in the `f64` domain: one butterfly, same inputs, different bits -/
+example : bflyFwdAvx ⟨0x3FE6A09E667F3BCD, 0x3FE6A09E667F3BCC, false⟩ (0x4008000000000002, 0x4010000000000006) (0x3FF8000000000131, 0x3FFC00000000046D) ≠
+    bflyFwd ⟨0x3FE6A09E667F3BCD, 0x3FE6A09E667F3BCC, false⟩ (0x4008000000000002, 0x4010000000000006) (0x3FF8000000000131, 0x3FFC00000000046D) := by
+  decide +kernel
+example : toLaneAvx 2 0x4024000000000000 = 3 ∧ toLaneAvx 2 0xC024000000000000 = -3 ∧ fromLaneAvx (-5) = ofInt (-5) := by decide +kernel
 
 end C07
